@@ -596,13 +596,16 @@ package protocol
 
 //@ func zzRoundTripStreamOpenErr
 //@ prop C05
-//@ requires len(s.Message) <= 255
-//@ ensures err == nil && result.RequestID == s.RequestID && result.ErrorCode == s.ErrorCode && len(result.Message) == len(s.Message)
+//@ requires s != nil && len(s.Message) <= 255
+//@ ensures err == nil
+//@ ensures result.RequestID == s.RequestID
+//@ ensures result.ErrorCode == s.ErrorCode
+//@ ensures len(result.Message) == len(s.Message)
 //@ ensures forall i in 0..len(s.Message): result.Message[i] == s.Message[i]
 
 //@ func zzRoundTripStreamOpenAck
 //@ prop C05
-//@ requires (s.BoundAddrType == 1 && len(s.BoundAddr) == 4) || (s.BoundAddrType == 4 && len(s.BoundAddr) == 16)
+//@ requires s != nil && ((s.BoundAddrType == 1 && len(s.BoundAddr) == 4) || (s.BoundAddrType == 4 && len(s.BoundAddr) == 16))
 //@ ensures err == nil && result.RequestID == s.RequestID && result.BoundAddrType == s.BoundAddrType && result.BoundPort == s.BoundPort && len(result.BoundAddr) == len(s.BoundAddr)
 //@ ensures forall i in 0..len(s.BoundAddr): result.BoundAddr[i] == s.BoundAddr[i]
 //@ ensures forall i in 0..32: result.EphemeralPubKey[i] == s.EphemeralPubKey[i]
